@@ -21,8 +21,8 @@ Start ==
 
 \* key elements for one mode
 FullElems == {KInt(0), KInt(1), KInt(2), KInt(0 - 1), KSlice(0 - 1, 0 - 1), KSlice(0, 1), KSlice(1, 0 - 1),
-              KSlice(0 - 1, 3), KList(<<0, 1>>), KList(<<1, 0>>), KList(<<0, 2>>)}
-MedElems  == {KInt(0), KInt(2), KInt(0 - 1), KSlice(0 - 1, 0 - 1), KSlice(0, 1), KSlice(0 - 1, 3), KList(<<1, 0>>)}
+              KSlice(0 - 1, 3), KList(<<0, 1>>), KList(<<1, 0>>), KList(<<0, 2>>), KStep(0 - 1, 0 - 1, 2), KStep(1, 0 - 1, 2)}
+MedElems  == {KInt(0), KInt(2), KInt(0 - 1), KSlice(0 - 1, 0 - 1), KSlice(0, 1), KSlice(0 - 1, 3), KList(<<1, 0>>), KStep(0 - 1, 0 - 1, 2)}
 GrowElems == {KInt(0), KInt(1), KSlice(0, 2)}          \* last element of a key that adds a mode
 
 Tuples(S, n) == [1..n -> S]
@@ -77,7 +77,13 @@ SmallWrites(X) ==
             W(key(KInt(2), KInt(0)), ScalarObj(5)),
             W(key(KSlice(0, 1), KSlice(0 - 1, 3)), ScalarObj(5)),
             W(key(KList(<<1, 0>>), KInt(0)), Block(RegionShape(X, key(KList(<<1, 0>>), KInt(0))), TRUE)),
-            W(key(KSlice(0, 1), all), Block(RegionShape(X, key(KSlice(0, 1), all)), FALSE))}
+            W(key(KSlice(0, 1), all), Block(RegionShape(X, key(KSlice(0, 1), all)), FALSE)),
+            \* strided regions: a scalar, zero, and a block that mixes zero and nonzero
+            W(key(KStep(0 - 1, 0 - 1, 2), all), ScalarObj(5)),
+            W(key(all, KStep(1, 0 - 1, 2)), ScalarObj(0))}
+           \cup (IF Prod(RegionShape(X, key(KStep(0 - 1, 0 - 1, 2), KStep(0 - 1, 0 - 1, 2)))) >= 1
+                 THEN {W(key(KStep(0 - 1, 0 - 1, 2), KStep(0 - 1, 0 - 1, 2)),
+                         Block(RegionShape(X, key(KStep(0 - 1, 0 - 1, 2), KStep(0 - 1, 0 - 1, 2))), TRUE))} ELSE {})
            \cup (IF n < 3 THEN {W(key(KInt(0), KInt(0)) \o <<KInt(1)>>, ScalarObj(5))} ELSE {})
            \cup {[op |-> "set_subs", args |-> [subs |-> <<[m \in 1..n |-> 0], [m \in 1..n |-> 1]>>, vals |-> <<0, 6>>, scalar |-> FALSE]],
                  [op |-> "set_subs", args |-> [subs |-> <<[m \in 1..n |-> 2]>>, vals |-> <<7>>, scalar |-> TRUE]],
@@ -107,7 +113,8 @@ ReadBack(X) ==
       allsubs == [k \in 1..Size(X) |-> Unlin(X.shape, k - 1)]
       lin == [k \in 1..Size(X) |-> k - 1]
   IN  IF n = 0 THEN <<>>
-      ELSE <<R("get_subs", [subs |-> RevSeq(allsubs)]),
+      ELSE SelectSeq(
+           <<R("get_subs", [subs |-> RevSeq(allsubs)]),
              R("get_subs", [subs |-> <<allsubs[1]>>]),
              R("get_linear", [idx |-> lin, form |-> "list"]),
              R("get_linear", [idx |-> RevSeq(lin), form |-> "list"]),
@@ -118,8 +125,11 @@ ReadBack(X) ==
              R("get_region", [key |-> [m \in 1..n |-> IF m = n THEN KInt(0 - 1) ELSE all]]),
              R("get_region", [key |-> [m \in 1..n |-> KInt(0 - 1)]]),
              R("get_region", [key |-> [m \in 1..n |-> IF m = 1 THEN KSlice(0, 1) ELSE KSlice(0 - 1, X.shape[m])]]),
+             R("get_region", [key |-> [m \in 1..n |-> IF m = 1 THEN KStep(0 - 1, 0 - 1, 2) ELSE all]]),
+             R("get_region", [key |-> [m \in 1..n |-> IF m = n THEN KStep(1, 0 - 1, 2) ELSE KStep(0 - 1, 0 - 1, 2)]]),
              R("get_region", [key |-> [m \in 1..n |-> IF m = 1 THEN (IF X.shape[1] >= 2 THEN KList(<<X.shape[1] - 1, 0>>)
-                                                                     ELSE KList(<<0>>)) ELSE all]])>>
+                                                                     ELSE KList(<<0>>)) ELSE all]])>>,
+           LAMBDA r : r.op # "get_region" \/ ReadKeyOk(X, r.args.key))
 
 ExpHolder(E) == [st |-> "ok", obj |-> DenseObj(E)]
 Ev(w, X2) == [op |-> w.op, args |-> w.args, post |-> X2]
